@@ -100,7 +100,7 @@ func ruleNumericHelpers(c *Ctx) {
 		// (2) Newton iteration, read symbolically
 		key := "IntegerSquareroot.newton"
 		newton := func() string {
-			if param == nil || loop == nil || loop.Cond == nil || loop.Init != nil || loop.Post != nil {
+			if param == nil || loop == nil || loop.Init != nil || loop.Post != nil {
 				return "?" + "no `for <cond> { … }` loop over a single parameter"
 			}
 			parents := parentMap(fd.Body)
@@ -118,6 +118,29 @@ func ruleNumericHelpers(c *Ctx) {
 						}
 					}
 				}
+			}
+			// `for { A; if C { return r }; B }` is `A; for !C { B; A }; return r`: the loop rotated to its exit test
+			loop := loop
+			if loop.Cond == nil {
+				k := -1
+				for i, st := range loop.Body.List {
+					if is, ok := st.(*ast.IfStmt); ok && is.Init == nil && is.Else == nil && len(is.Body.List) == 1 {
+						if r, ok := is.Body.List[0].(*ast.ReturnStmt); ok && len(r.Results) == 1 && k < 0 {
+							k = i
+						}
+					}
+				}
+				if k < 0 {
+					return "?" + "no `for <cond> { … }` loop over a single parameter"
+				}
+				exit := loop.Body.List[k].(*ast.IfStmt)
+				before, after := loop.Body.List[:k], loop.Body.List[k+1:]
+				notC := &ast.UnaryExpr{OpPos: exit.Cond.Pos(), Op: token.NOT, X: exit.Cond}
+				info.Types[notC] = info.Types[exit.Cond]
+				rot := &ast.ForStmt{For: loop.For, Cond: notC, Body: &ast.BlockStmt{Lbrace: loop.Body.Lbrace, List: append(append([]ast.Stmt{}, after...), before...), Rbrace: loop.Body.Rbrace}}
+				pre = append(append([]ast.Stmt{}, pre...), before...)
+				post = []ast.Stmt{exit.Body.List[0]}
+				loop = rot
 			}
 			if len(post) == 0 {
 				return "?" + "nothing is returned after the loop"
